@@ -51,7 +51,7 @@ LATTICE = {
     'return_info': [True, False],
     'plain': [False, True],
     'verb': [0, -1, 1, 2, 3, 4, 5],
-    'source': ['dipole', 'rnd', 'unit', 'real', 'zero', 'nofreq'],
+    'source': ['dipole', 'rnd', 'unit', 'real', 'zero', 'nofreq', 'weak'],
     'api': ['solve', 'solve_source'],
 }
 
@@ -102,6 +102,11 @@ def make_source(grid, kind, freq):
     import emg3d
     n = tuple(grid.shape_cells)
     im = fit.interior_mask(n)
+    if kind == 'weak':
+        # a legal source of tiny amplitude (weak current, source-normalised
+        # data, adjoint sources of small residuals): the solver is scale-free
+        vec, src = make_source(grid, 'dipole', freq)
+        return vec*1e-13, None
     if kind in ('dipole', 'real'):
         if min(n) >= 4:
             nd = [grid.nodes_x, grid.nodes_y, grid.nodes_z]
@@ -364,6 +369,104 @@ def case(c):
 
 # ---------------------------------------------------------------- E4 ------
 
+# ------------------------------------------- solves on ONE re-used Model
+FN_R = 'mc.checks.c01_solver:case_reuse'
+REUSE_OPS = ('S1', 'S2', 'Mx', 'Mxi', 'Mz', 'Mmu', 'Meps')
+
+
+def case_reuse(c):
+    """A sequence of solves on one Model OBJECT that is updated in between
+    (assignment through the setters, in-place edit of the arrays): every
+    success report certifies the field for the model as it is at that
+    moment.  Nothing of an earlier solve may stick to the model or grid."""
+    import emg3d
+    grid, model = build(c)
+    n = tuple(grid.shape_cells)
+    idx = np.flatnonzero(fit.interior_mask(n))
+    viol, compared, nsolve = [], 0, 0
+    freqs = {'S1': c.get('freq', 2.0), 'S2': -3.0}
+    k = 0
+    for step, op in enumerate(c['ops']):
+        k += 1
+        r_ = zoo.rng('c01', 'reuse', step)
+        if op in ('Mx', 'Mxi', 'Mz', 'Mmu', 'Meps'):
+            name = {'Mx': 'property_x', 'Mxi': 'property_x',
+                    'Mz': 'property_z', 'Mmu': 'mu_r',
+                    'Meps': 'epsilon_r'}[op]
+            cur = getattr(model, name)
+            if cur is None:
+                continue                   # property not part of this model
+            fac = r_.uniform(0.3, 3.0, cur.shape)
+            if op == 'Mxi':
+                cur *= fac                 # in place, same array object
+            else:
+                setattr(model, name, cur*fac)
+            continue
+        freq = freqs[op]
+        svec, _ = make_source(grid, 'dipole' if freq > 0 else 'real', freq)
+        sfield = emg3d.Field(grid, data=svec.copy(), frequency=freq)
+        A = fit.assemble_for(model, zoo.sval_of(freq))
+        if sfield.field.dtype.kind != 'c':
+            A = A.real
+        with warnings.catch_warnings():
+            warnings.simplefilter('ignore')
+            efield, info = emg3d.solve(model, sfield, return_info=True,
+                                       verb=-1, **c['cfg'])
+        nsolve += 1
+        e = np.array(efield.field)
+        snorm = np.linalg.norm(svec)
+        r = np.linalg.norm((svec - A @ e)[idx])
+        tol = c['cfg'].get('tol', 1e-6)
+        compared += 2
+        hist = list(c['ops'][:step+1])
+        if info['exit'] == 0 and not r <= tol*snorm*(1 + SLACK):
+            viol.append({
+                'cls': 'success-but-residual-above-tol',
+                'what': f'history {hist} on one Model object: exit 0 '
+                        f'({info["exit_message"]}) but ||s - A e|| = '
+                        f'{r:.3e} > tol ||s|| = {tol*snorm:.3e} for the '
+                        'model as it is now', 'observed': r,
+                'expected': tol*snorm})
+        elif info['exit'] == 0 and not abs(info['abs_error'] - r) <= \
+                1e-3*max(r, 1e-3*tol*snorm) + 1e-12*snorm:
+            viol.append({
+                'cls': 'reported-error-not-of-returned-field',
+                'what': f'history {hist}: abs_error {info["abs_error"]:.3e}'
+                        f' vs independent residual {r:.3e}'})
+        if viol:
+            break
+    return {'viol': viol, 'compared': compared, 'transitions': len(c['ops']),
+            'nontrivial': nsolve > 1,
+            'outcome': (nsolve, c['cfg'].get('sslsolver', True) is not False)}
+
+
+def reuse_cases(tier):
+    out = []
+    depth = 3 if tier == 'quick' else 4
+    cfgs = [{'sslsolver': False, 'semicoarsening': False,
+             'linerelaxation': False, 'tol': 1e-6},
+            {'sslsolver': 'bicgstab', 'tol': 1e-6}]
+    mods = ('Mx', 'Mxi', 'Mz', 'Mmu', 'Meps')
+    for g in (GRIDS[0], GRIDS[3]):
+        for m in (MODELS[1], MODELS[3]) if tier == 'quick' else MODELS:
+            for cfg in cfgs:
+                for d in range(2, depth + 1):
+                    for ops in itertools.product(REUSE_OPS, repeat=d):
+                        # histories that start and end with a solve and have
+                        # no two modifications of the same kind in a row
+                        if ops[0][0] != 'S' or ops[-1][0] != 'S':
+                            continue
+                        if not any(o in mods for o in ops) and \
+                                len(set(ops)) == 1 and d > 2:
+                            continue
+                        if any(a == b and a in mods
+                               for a, b in zip(ops, ops[1:])):
+                            continue
+                        out.append({'grid': g, 'model': m, 'cfg': cfg,
+                                    'ops': list(ops)})
+    return out
+
+
 ACTIONS = ('CB', 'NOCB', 'PREC')
 RETURNS = ('R0', 'RMAX', 'RNEG')
 
@@ -559,6 +662,17 @@ def run(ctx):
                     rule=f'all configurations with <= {1 if q else 2} '
                          'non-default options out of 17 option domains',
                     time_cap=cap or (240 if q else 3000))
+    if ctx.wants('reuse'):
+        ctx.explore('model-reuse', FN_R, reuse_cases(ctx.tier), engine='E2',
+                    rule='all histories up to length 3 (thorough 4) over '
+                         '{solve f>0, solve f<0, assign property_x, edit '
+                         'property_x in place, assign property_z / mu_r / '
+                         'epsilon_r} on ONE Model object, starting and ending '
+                         'with a solve, x 2 grids x models x {multigrid, '
+                         'bicgstab}; every success is certified against the '
+                         'model as it is at that moment; non-trivial = more '
+                         'than one solve',
+                    time_cap=cap or (300 if q else 1500))
     if ctx.wants('init'):
         dom = {'source': LATTICE['source'], 'efield': LATTICE['efield'],
                'return_info': [True, False],
